@@ -93,6 +93,25 @@ MUTANTS = [
      "        elif type(name) is not str:\n            raise TypeError(\"name must be a string\")", "        elif type(name) is not str:\n            name = str(name)"),
     ("c06-slave-widens-default", "C06", "rpyc/core/service.py",
      "        self._conn._config.update(dict(\n            allow_all_attrs=True,", "        from rpyc.core.protocol import DEFAULT_CONFIG as _D\n        _D['allow_all_attrs'] = True\n        self._conn._config.update(dict(\n            allow_all_attrs=True,"),
+    # ---- C07
+    ("c07-shared-object-table", "C07", "rpyc/core/protocol.py",
+     "        self._local_objects = RefCountingColl()", "        self._local_objects = _SHARED_OBJECTS"),
+    ("c07-cmp-no-policy", "C07", "rpyc/core/protocol.py",
+     "            return self._access_attr(type(obj), op, (), \"_rpyc_getattr\", \"allow_getattr\", getattr)(obj, other)",
+     "            return getattr(type(obj), op)(obj, other)"),
+    ("c07-pickle-allowed", "C07", "rpyc/core/protocol.py",
+     "        if not self._config[\"allow_pickle\"]:\n            raise ValueError(\"pickling is disabled\")\n", ""),
+    ("c07-vinegar-imports", "C07", "rpyc/core/vinegar.py",
+     "    if import_custom_exceptions and modname not in sys.modules:", "    if modname not in sys.modules:"),
+    ("c07-vinegar-constructs", "C07", "rpyc/core/vinegar.py",
+     "    if instantiate_custom_exceptions:\n        if modname in sys.modules:", "    if True:\n        if modname not in sys.modules:\n            try:\n                __import__(modname)\n            except Exception:\n                pass\n        if modname in sys.modules:"),
+    ("c07-class-attr-safe", "C07", "rpyc/core/protocol.py",
+     "                    '__exit__', '__next__', '__format__']),", "                    '__exit__', '__next__', '__format__', '__dict__', '__class__']),"),
+    ("c07-public-attrs-default", "C07", "rpyc/core/protocol.py",
+     "    allow_public_attrs=False,", "    allow_public_attrs=True,"),
+    ("c07-localref-fallback-eval", "C07", "rpyc/core/protocol.py",
+     "        elif label == consts.LABEL_LOCAL_REF:\n            pinned[value] = self._local_objects[value]",
+     "        elif label == consts.LABEL_LOCAL_REF:\n            try:\n                pinned[value] = self._local_objects[value]\n            except KeyError:\n                import gc\n                pinned[value] = [o for o in gc.get_objects() if get_id_pack(o) == value][0]"),
     # ---- C08
     ("c08-reply-twice", "C08", "rpyc/core/protocol.py",
      "        else:\n            self._send_data(reply)",
@@ -243,6 +262,8 @@ MUTANTS = [
 def apply(root, path, old, new):
     p = os.path.join(root, path)
     s = open(p).read()
+    if "_SHARED_OBJECTS" in new:
+        s = s.replace("class Connection(object):", "_SHARED_OBJECTS = RefCountingColl()\n\n\nclass Connection(object):", 1)
     if s.count(old) != 1:
         raise RuntimeError("mutant pattern matches %d times in %s" % (s.count(old), path))
     open(p, "w").write(s.replace(old, new))
